@@ -72,7 +72,7 @@ CONTRACTS[(PATH, 'BaseEngineLineOCR.process_lines')] = Contract(
         'if batch_data.shape[2] > self.max_input_horizontal_pixels:': [],
         'out_transcriptions, out_logits = self.run_ocr(batch_data)': ['(out_transcriptions, out_logits) = RUN_OCR(batch_line_ids)'],
     },
-    ghost_at={'line_ids = [x for x, y in sorted(': ['order = line_ids', 'done = 0']},
+    ghost_at={'line_ids = [': ['order = line_ids', 'done = 0']},
     ensures=['len(result[0]) == ' + _n + ' and len(result[1]) == ' + _n + ' and len(result[2]) == ' + _n,
              # the processing order is a permutation of the input positions: every position i is processed (as number SORT_INV(i))
              'forall(lambda i: implies(0 <= i and i < ' + _n + ', 0 <= SORT_INV(i) and SORT_INV(i) < ' + _n + ' and order[SORT_INV(i)] == i))',
